@@ -31,6 +31,14 @@ TEXT = {
              "framing facts + byte-exact differential runs of translateData*, the framer and handleMessageData (single node and multi-node pump).",
         note=BASE_NOTE + "Assumed: highwayhash collision-free on the names in play; Go channel/map semantics. Concurrent senders are "
              "covered by the model's independence of packets (each send is its own walk), not by a schedule theorem: partial."),
+    "C11": dict(
+        text="Theorems established_admissible, established_only_by_admit, rejected_leaves_nothing, one_per_id (connection table Nodup "
+             "for every order of simultaneous handshakes, the check-and-insert being atomic), post_establishment_checks (identity change, "
+             "unlisted, cost disagreement ⇒ reject + removal), session_end_forgets, later_duplicate_shuts_down / earlier_survives, and a "
+             "witness theorem of the repaired empty-ID defect. Tie: regenerated facts (order of the handshake checks and the lock span, "
+             "post-establishment checks, removeConnection on every exit path) + differential runs of runProtocol with scripted sessions "
+             "over allow-list × cost overrides × announced ID/cost/forwarder, and of handleRoutingUpdate for the duplicate-node logic.",
+        note=BASE_NOTE + "Racing sessions are modelled as atomic steps under the lock fact, not forced dynamically."),
     "C12": dict(
         text="Theorems first_match_decides / evalRules_cases / default_accept / match_iff_all_fields over the rule loop, "
              "regex_full_match (derivative matcher proved equal to the denotational language of the pattern), parseRule_strict / "
